@@ -815,11 +815,15 @@ package spec
 // the object a reference is decoded into is separate from the loader's own objects and from the stack of parent refs
 //@ define sepFrom(p ptr, r *schemaLoader, parentRefs []string) bool = obase(p) != obase(r) && obase(p) != obase(r.options) && obase(p) != obase(r.context) && obase(p) != obase(sliceArr(parentRefs))
 
+// the Ref field of the element handed to deref
+//@ define derefRefOf(input interface{}) *Ref = holds(input, "*Schema") ? &asPtr(input, "*Schema").Ref : (holds(input, "*Parameter") ? &asPtr(input, "*Parameter").Ref : (holds(input, "*Response") ? &asPtr(input, "*Response").Ref : &asPtr(input, "*PathItem").Ref))
+
 //@ func (*schemaLoader).deref
 //@   property C04, C08, C18
 //@   requires wfResolver(r) && canonBase(basePath)
 //@   requires sepFrom(payload(input), r, parentRefs) && allocated(payload(input))
 //@   requires [C04] distinct-stack @@ distinctStr(parentRefs)
+//@   assumes  [C04] documents-have-paths @@ hasPrefix(urlPath(normURI(refString(derefRefOf(input)), basePath)), "/")
 //@   assigns  region(payload(input)), modelmaps(), spare(parentRefs), map(r.context.circulars), ghost(decodedFrom, cacheDom, cacheDoc, calls, failures)
 //@   requires holds(input, "*Schema") || holds(input, "*Parameter") || holds(input, "*Response") || holds(input, "*PathItem")
 //@   requires payload(input) != nil
